@@ -2,13 +2,17 @@
 from ..scen_sorter import sorter
 from ..scen_go import go_chain
 from ..kani import kani_family
+from ..scen_misc import sort_functions, value_order_arms
 
 
 def run(ctx):
     sorter(ctx, want_order=True, want_topn=False)
-    go_chain(ctx, want=('go.chain',))         # first --sort-by innermost => runs last => most significant under stable sorting
+    go_chain(ctx, want=('go.chain',))
+    sort_functions(ctx)
+    value_order_arms(ctx)         # first --sort-by innermost => runs last => most significant under stable sorting
     specs = [('k_number_order_axioms', 'number-order-axioms', 'Ord for NumberValue: antisymmetric, reflexive, cmp==Equal <=> ==, agrees with the real order (parser normal form, |n| < 2^53 or non-integral)'),
              ('k_scalar_rank_and_eq_hash', 'scalar-rank', 'null < false < true < strings < numbers; cmp==Equal <=> ==; Eq => equal hash transcript')]
+    # k_array_order_lexicographic (arrays under Kani) does not finish in 15 min (Vec<JsonValue> element code, see DESIGN 4): arrays are order.arms (Engine M)
     if not ctx.quick:
         specs.append(('k_number_order_transitive', 'number-order-transitive', 'Ord / Eq for NumberValue transitive over all 27 variant triples'))
     ctx.run.bounds['order'] = 'numbers: all three variants, every payload with |n| < 2^53 (integers) or non-integral finite doubles; strings of one ASCII byte; concrete-variant loops'
